@@ -79,7 +79,7 @@ pub fn main(table: &[GrammarEntry]) {
         by_id.insert(id, ModelEntry { text, spec, types_hash, types_text });
     }
     let current: Arc<Mutex<Option<serde_json::Value>>> = Arc::new(Mutex::new(None));
-    // watchdog: a single case normally takes microseconds; 30 s without progress is reported as a hang
+    // watchdog: a single case normally takes microseconds; 90 s without progress is reported as a hang (exit 3: the run is inconclusive, never a violation)
     {
         let current = current.clone();
         let out = args.out.clone();
@@ -92,7 +92,7 @@ pub fn main(table: &[GrammarEntry]) {
                 if seq != last_seq {
                     last_seq = seq;
                     since = now_ms();
-                } else if CASE_STARTED_MS.load(Ordering::Relaxed) != 0 && now_ms() - since > 30_000 {
+                } else if CASE_STARTED_MS.load(Ordering::Relaxed) != 0 && now_ms() - since > 90_000 {
                     let cur = current.lock().unwrap().clone();
                     let _ = std::fs::write(format!("{out}.hang"), serde_json::to_string(&json!({"hang": cur})).unwrap());
                     std::process::exit(3);
